@@ -197,8 +197,8 @@ pub proof fn lemma_release(out: Seq<SortedDltMessage>, hv: Seq<SortedDltMessage>
 //@   sub R11 `get_lc_start_time(m.lifecycle)` => `vx_get_lc_start_time(m.lifecycle)`
 //@   sub R11 `update_max_buffering_delays(` => `vx_update_max_buffering_delays(min_buffer_delay_us,`
 //@   sub R11 `buffer.push(std::cmp::Reverse(sm))` => `vx_heap_push(&mut buffer, VxReverse(sm))`
-//@   sub R11 `buffer.peek()` => `vx_heap_peek(&buffer)`
-//@   sub R11 `buffer.pop()` => `vx_heap_pop(&mut buffer)` x2
+//@   sub R11 `buffer.peek()` => `vx_heap_peek(&buffer)` *
+//@   sub R11 `buffer.pop()` => `vx_heap_pop(&mut buffer)` *
 //@   sub R13 `for m in inflow {` => `loop { let m = match inflow.recv() { Ok(vx_m) => vx_m, Err(_) => break };`
 //@   sub R12 `outflow(sm2.0.m)?` => `outflow.send(sm2.0.m)?`
 //@   sub R12 `outflow(sm.0.m)?` => `outflow.send(sm.0.m)?`
@@ -227,7 +227,7 @@ pub proof fn lemma_release(out: Seq<SortedDltMessage>, hv: Seq<SortedDltMessage>
 //@|        assert(to_ms(outflow.log()).add(heap_ms(&buffer)) =~= to_ms(log0).add(to_ms(ms0.subrange(0, 0))));
 //@|        assert(outflow.log() =~= log0 + msgs_of(out));
 //@|    }
-//@   loop 1
+//@   loop 1 `loop`
 //@|    invariant
 //@|        0 <= k <= ms0.len(), log0 == old(outflow).log(), md == min_buffer_delay_us, hyp == ordered_input(ms0, md),
 //@|        inflow.rem() == ms0.skip(k),
@@ -280,7 +280,7 @@ pub proof fn lemma_release(out: Seq<SortedDltMessage>, hv: Seq<SortedDltMessage>
 //@|            }
 //@|        }
 //@|    }
-//@   loop 2
+//@   loop 2 `vx_heap_peek`
 //@|    invariant
 //@|        0 < k <= ms0.len(), log0 == old(outflow).log(), msg_reception_time_us <= T_B(), md == min_buffer_delay_us, hyp == ordered_input(ms0, md),
 //@|        min_buffer_delay_us <= max_buffer_time_us <= 0x4000_0000_0000_0000, all_bounded(heap_view(&buffer), T_B()),
@@ -313,7 +313,7 @@ pub proof fn lemma_release(out: Seq<SortedDltMessage>, hv: Seq<SortedDltMessage>
 //@|        }
 //@|        out = out.push(e);
 //@|    }
-//@   loop 3
+//@   loop 3 `vx_heap_pop`
 //@|    invariant
 //@|        log0 == old(outflow).log(), hvg == heap_view(&buffer),
 //@|        to_ms(outflow.log()).add(heap_ms(&buffer)) == to_ms(log0).add(to_ms(ms0)), // O:sort.inv.flush
